@@ -265,19 +265,14 @@ Proof.
 Qed.
 
 Lemma apply_field_twice : forall f raw c c1 evs b c2 evs2 b2 gs,
-  max_field_chars E <> 0 ->
   apply_field E f raw c = (c1, evs, b) ->
   apply_field E f raw (with_groups c1 gs) = (c2, evs2, b2) -> b2 = false.
 Proof.
-  intros f raw c c1 evs b c2 evs2 b2 gs Hmax H1 H2. unfold apply_field in *.
-  set (new := option_map (truncate_value E) (parse_value E (c_fields c) f raw)) in *.
-  assert (Hst : stored new = new).
-  { unfold new, parse_value. destruct raw as [|x raw]; [reflexivity|].
-    destruct (parse_loc E (field_type E f) _ (x :: raw)) as [[st di] wa]. cbn [option_map truncate_value stored v_text].
-    unfold truncate. destruct (firstn (N.to_nat (max_field_chars E)) (x :: raw)) eqn:Hfn; [|reflexivity].
-    exfalso. apply (firstn_nonempty (max_field_chars E) (x :: raw) Hmax); [discriminate | exact Hfn]. }
+  intros f raw c c1 evs b c2 evs2 b2 gs H1 H2. unfold apply_field in *.
+  set (new := nonempty_value (option_map (truncate_value E) (parse_value E (c_fields c) f raw))) in *.
+  assert (Hst : stored new = new) by (unfold new; apply stored_nonempty).
   assert (Hfs : c_fields (with_groups c1 gs) = c_fields c1) by (destruct c1; reflexivity). rewrite Hfs in H2.
-  assert (Hsame : option_map (truncate_value E) (parse_value E (c_fields c1) f raw) = new
+  assert (Hsame : nonempty_value (option_map (truncate_value E) (parse_value E (c_fields c1) f raw)) = new
                   /\ fget f (c_fields c1) = new).
   { destruct (ofvalue_eqb new (fget f (c_fields c))) eqn:Heq; cbn [negb] in H1; inversion H1; subst c1 evs b.
     - apply ofvalue_eqb_eq in Heq. split; [reflexivity | symmetry; exact Heq].
@@ -325,11 +320,11 @@ Qed.
 Lemma inner_twice : forall fresh fresh' m c c1 evs b c2 evs2 b2 gs',
   NoDup (c_groups c) -> NoDup gs' ->
   (is_active c1 = true -> forall g, uses_query E g = false -> (In g gs' <-> In g (c_groups c1))) ->
-  max_field_chars E <> 0 -> mod_env_ok E m c = true ->
+  mod_env_ok E m c = true ->
   apply_inner E fresh m c = (c1, evs, b) ->
   apply_inner E fresh' m (with_groups c1 gs') = (c2, evs2, b2) -> b2 = false.
 Proof.
-  intros fresh fresh' m c c1 evs b c2 evs2 b2 gs' Hnd Hnd' Hst Hmax Hok H1 H2.
+  intros fresh fresh' m c c1 evs b c2 evs2 b2 gs' Hnd Hnd' Hst Hok H1 H2.
   destruct m; cbn [apply_inner] in H1, H2.
   - unfold apply_name in *.
     assert (Hn : c_name (with_groups c1 gs') = truncate (max_field_chars E) n).
@@ -355,7 +350,7 @@ Proof.
       - apply optN_eqb_eq in Heq. destruct c; exact Heq.
       - destruct c; reflexivity. }
     rewrite Hn, (proj2 (optN_eqb_eq tz tz) eq_refl) in H2. inversion H2. reflexivity.
-  - exact (apply_field_twice f raw c c1 evs b c2 evs2 b2 gs' Hmax H1 H2).
+  - exact (apply_field_twice f raw c c1 evs b c2 evs2 b2 gs' H1 H2).
   - exact (apply_groups_twice gs md c c1 evs b c2 evs2 b2 gs' Hnd Hnd' Hst H1 H2).
   - exact (apply_urns_twice us md c c1 evs b c2 evs2 b2 gs' Hok H1 H2).
   - exact (apply_channel_twice ch c c1 evs b c2 evs2 b2 gs' Hok H1 H2).
@@ -370,12 +365,12 @@ Qed.
 (* C03, third clause: the second application of the same modifier reports nothing, emits no change event and
    leaves the contact as it is *)
 Theorem idempotent : forall fresh fresh' m c c1 evs1 b1 c2 evs2 b2,
-  wf_contact E c -> mod_wf E m -> max_field_chars E <> 0 -> mod_env_ok E m c = true ->
+  wf_contact E c -> mod_wf E m -> mod_env_ok E m c = true ->
   apply E fresh m c = (c1, evs1, b1) ->
   apply E fresh' m c1 = (c2, evs2, b2) ->
   b2 = false /\ has_change_event evs2 = false /\ erase c2 = erase c1.
 Proof.
-  intros fresh fresh' m c c1 evs1 b1 c2 evs2 b2 Hwf Hm Hmax Hok H1 H2.
+  intros fresh fresh' m c c1 evs1 b1 c2 evs2 b2 Hwf Hm Hok H1 H2.
   assert (Hwf1 : wf_contact E c1).
   { destruct b1; [eapply after_modifier | eapply after_noop_modifier]; eassumption. }
   assert (Hb2 : b2 = false).
@@ -430,18 +425,18 @@ Definition with_parse_dt (E : menv) (p : text -> option N) : menv :=
 
 Theorem idempotent_moving_clock_refuted :
   exists E p2 fresh m c c1 evs1 b1 c2 evs2,
-    wf_contact E c /\ mod_wf E m /\ max_field_chars E <> 0 /\ mod_env_ok E m c = true
+    wf_contact E c /\ mod_wf E m /\ mod_env_ok E m c = true
     /\ apply E fresh m c = (c1, evs1, b1)
     /\ apply (with_parse_dt E p2) (fresh + 1) m c1 = (c2, evs2, true).
 Proof.
   exists (with_parse_dt ex_env (fun _ => Some 1)), (fun _ => Some 2), 7, (MField 0 [50]), (ex_contact [106] [0]).
   eexists. eexists. eexists. eexists. eexists.
   split; [split; [repeat constructor; cbn; intuition discriminate | intros g [H|[]]; subst; cbn; tauto]|].
-  split; [exact I|]. split; [discriminate|]. split; [reflexivity|]. split; reflexivity.
+  split; [exact I|]. split; [reflexivity|]. split; reflexivity.
 Qed.
 
-(* MaxFieldChars = 0 (excluded by the premise max_field_chars E <> 0): a field value is truncated to the empty
-   text, the modifier reports a change and emits contact_field_changed, and nothing is stored *)
+(* MaxFieldChars = 0: a field value is truncated to nothing, which is no value — nothing is reported, announced
+   or stored (before fix F3f the modifier reported a change and announced an empty value) *)
 Definition with_max (E : menv) (n : N) : menv :=
   {| max_field_chars := n; urn_normalize := urn_normalize E; urn_valid := urn_valid E;
      urn_identity := urn_identity E; urn_scheme := urn_scheme E; urn_set_channel := urn_set_channel E;
@@ -449,13 +444,6 @@ Definition with_max (E : menv) (n : N) : menv :=
      field_types := field_types E; parse_num := parse_num E; parse_dt := parse_dt E; parse_loc := parse_loc E;
      all_groups := all_groups E; uses_query := uses_query E; matches := matches E |}.
 
-Theorem zero_limit_refuted :
-  exists E fresh m c c' evs,
-    wf_contact E c /\ mod_wf E m /\ max_field_chars E = 0
-    /\ apply E fresh m c = (c', evs, true) /\ same_contact c c'.
-Proof.
-  exists (with_max ex_env 0), 7, (MField 0 [50]), (ex_contact [106] [0]). eexists. eexists.
-  split; [split; [repeat constructor; cbn; intuition discriminate | intros g [H|[]]; subst; cbn; tauto]|].
-  split; [exact I|]. split; [reflexivity|]. split; [reflexivity|].
-  unfold same_contact. cbn. repeat split; reflexivity.
-Qed.
+Example ex_zero_limit :
+  apply (with_max ex_env 0) 7 (MField 0 [50]) (ex_contact [106] [0]) = (ex_contact [106] [0], [], false).
+Proof. reflexivity. Qed.
